@@ -135,6 +135,10 @@ CHECKS = {
 }
 
 
+CHECKS["C04"]["scenarios"] = [{"name": "c04", "share": 0.85}, {"name": "c04-printer", "share": 0.15}]
+CHECKS["C04"]["rule"] += (" Scenario c04-printer: 2-4 tasks print 1-3 lines each (plain and '<test name>: message' feedback lines, with and without their own newline) "
+                          "through internal.NewPrinter (instrumented) into a sink whose every Write is a scheduling point; the sink must receive exactly the printed lines, whole.")
+
 # checks contributed as separate files: tools/vconfig_extra_<ID>.py defines CHECK = {...}
 import glob as _glob, os as _os
 for _f in sorted(_glob.glob(_os.path.join(_os.path.dirname(_os.path.abspath(__file__)), "vconfig_extra_*.py"))):
